@@ -121,6 +121,33 @@ int main() {
       }
       if (!finite)
         bad << " flux-not-finite";
+      // the limiter applies ONE factor in [0,1] to all five components: compare with the
+      // unlimited flux (dt = 0: no limiter condition can fire for non-negative masses/energies)
+      HydroVariables Lu, Ru;
+      Lu.copy_all(L0);
+      Ru.copy_all(R0);
+      for (int j = 0; j < 5; ++j) {
+        Lu.delta_conserved(j) = 0.;
+        Ru.delta_conserved(j) = 0.;
+      }
+      hydro.do_flux_calculation(i, Lu, Ru, dx, A, 0.);
+      if (finite && L0.get_conserved_mass() >= 0. && R0.get_conserved_mass() >= 0. &&
+          L0.get_conserved_total_energy() >= 0. && R0.get_conserved_total_energy() >= 0.) {
+        double fac = -1., scale = 0.;
+        for (int j = 0; j < 5; ++j)
+          scale = std::max(scale, std::abs(Ru.delta_conserved(j)));
+        for (int j = 0; j < 5; ++j) {
+          const double raw = Ru.delta_conserved(j), lim = Rz.delta_conserved(j);
+          if (std::abs(raw) > 1.e-3 * scale && std::isfinite(raw)) {
+            const double f = lim / raw;
+            if (!(f >= -1.e-12 && f <= 1. + 1.e-12))
+              bad << " flux-limiter-factor-outside-0-1 component=" << j;
+            if (fac >= 0. && std::abs(f - fac) > 1.e-9 * std::max(fac, f))
+              bad << " flux-components-scaled-by-different-factors component=" << j;
+            fac = f;
+          }
+        }
+      }
     } else if (op == "gflux" && w.size() == 36) {
       const double gamma = dbl(w[1]);
       const int i = std::atoi(w[2].c_str());
